@@ -3,6 +3,7 @@
     instead of reducing the 22-function mutual fixpoint. *)
 From Coq Require Import List NArith Bool.
 From XmlRs Require Import Base.CPred Base.NList Base.Float64.
+From XmlRs Require Import Spec.XPathCore Model.XPathFuncs.
 From XmlRs Require Import Model.XPathAst Model.XDoc Model.XPathScalar Model.XPathEval.
 Import ListNotations.
 Open Scope N_scope.
@@ -100,7 +101,7 @@ Proof. reflexivity. Qed.
 
 Lemma eval_unary_expr_eq inv u n :
   eval_unary_expr doc (EUnary inv u) n =
-  (v <- eval_union_expr doc u n ;; if N.even inv then ret v else lift (neg_value doc v)).
+  (v <- eval_union_expr doc u n ;; lift (neg_times doc (N.to_nat inv) v)).
 Proof. reflexivity. Qed.
 
 Lemma eval_union_expr_nil n : eval_union_expr doc (EUnion PathNil) n = ret (XNodes []).
@@ -120,7 +121,7 @@ Lemma eval_union_expr_many first p t n :
   (v <- eval_path_expr doc first n ;;
    match v with
    | XNodes l => eval_union_rest doc (PathCons p t) l n
-   | _ => lift (Err EInvalidType)
+   | _ => lift (Err XErrInvalidType)
    end).
 Proof. reflexivity. Qed.
 
@@ -133,7 +134,7 @@ Lemma eval_union_rest_cons p t acc n :
   (v <- eval_path_expr doc p n ;;
    match v with
    | XNodes l' => eval_union_rest doc t (acc ++ l') n
-   | _ => lift (Err EInvalidType)
+   | _ => lift (Err XErrInvalidType)
    end).
 Proof. reflexivity. Qed.
 
@@ -169,7 +170,7 @@ Lemma eval_path_expr_filterpath f op l n :
                       end) ;;
        collected <- flat_map_m (eval_rel_path doc l) nodes ;;
        ret (XNodes (sort_by_key doc collected))
-   | _ => lift (Err EInvalidType)
+   | _ => lift (Err XErrInvalidType)
    end).
 Proof. reflexivity. Qed.
 
@@ -182,7 +183,7 @@ Lemma eval_filter_expr_preds primary p t n :
   (v <- eval_primary_expr doc primary n ;;
    match v with
    | XNodes l => r <- eval_predicates doc (ExprCons p t) l ;; ret (XNodes r)
-   | _ => lift (Err EInvalidType)
+   | _ => lift (Err XErrInvalidType)
    end).
 Proof. reflexivity. Qed.
 
@@ -212,7 +213,7 @@ Lemma eval_primary_expr_variable q n :
   eval_primary_expr doc (PrimVariable q) n =
   (fun c =>
      match expanded_name (c_ns c) q with
-     | Ok (local, _, _) => (Err (ENotFoundVariable local), c)
+     | Ok (local, _, _) => (Err (XErrNotFoundVariable local), c)
      | Err e => (Err e, c)
      | Panic => (Panic, c)
      | OutOfFuel => (OutOfFuel, c)
